@@ -70,6 +70,59 @@ func derivedFrom(got, orig Cred, d Desc) string {
 	return ""
 }
 
+// readableSatisfies: read as the verifier reads it, the credential shows, for every non-optional field of the
+// descriptor, a member at one of the field's paths that passes the filter (or is the predicate's `true`).
+func readableSatisfies(got Cred, d Desc) string {
+	if d.Cons == nil {
+		return ""
+	}
+
+	pk := predicateKeys(d) // a member named by a predicate field (of this descriptor) is shown as `true`
+
+	for i, f := range d.Cons.Fields {
+		if f.Optional {
+			continue
+		}
+
+		ok := false
+
+		for _, p := range f.Paths {
+			if v, has := got.get(p); has && (refFilter(f.Filter, v) || (pk[p] && v.T == "b" && v.B)) {
+				ok = true
+			}
+		}
+
+		if !ok {
+			return fmt.Sprintf("field %d (paths %v) is not readable in the credential", i, f.Paths)
+		}
+	}
+
+	return ""
+}
+
+// limitedOK: under limit_disclosure=required only requested members are readable, and an SD-JWT credential
+// presents exactly one disclosure per readable member.
+func limitedOK(got Cred, disclosures int, d Desc) (string, string) {
+	if d.Cons == nil || d.Cons.Limit != 2 {
+		return "", ""
+	}
+
+	rk := requestedKeys(d)
+	for _, a := range got.Attrs {
+		if !rk[a.K] {
+			return "limit-disclosure-reveals-unrequested-member",
+				fmt.Sprintf("d%d requires limited disclosure of %v but the credential reveals %s", d.ID, rk, keyPath(a.K))
+		}
+	}
+
+	if got.SD && disclosures != len(got.Attrs) {
+		return "sd-jwt-presents-disclosures-beyond-readable-claims",
+			fmt.Sprintf("d%d: %d disclosures presented, %d members readable", d.ID, disclosures, len(got.Attrs))
+	}
+
+	return "", ""
+}
+
 // judge is the property's direct oracle on the implementation's behaviour.
 func judge(c Case, o *Obs) (string, string) {
 	if o.Create != "vp" {
@@ -112,14 +165,16 @@ func judge(c Case, o *Obs) (string, string) {
 			return "holder-alters-credential", fmt.Sprintf("d%d -> [%d]: %s", m.ID, m.Idx, why)
 		}
 
-		if d.Cons != nil && d.Cons.Limit == 2 {
-			rk := requestedKeys(d)
-			for _, a := range o.Creds[m.Idx].Attrs {
-				if !rk[a.K] {
-					return "limit-disclosure-reveals-unrequested-member",
-						fmt.Sprintf("d%d requires limited disclosure of %v but verifiableCredential[%d] reveals a%d", m.ID, rk, m.Idx, a.K)
-				}
+		if why := readableSatisfies(o.Creds[m.Idx], d); why != "" {
+			return "holder-presents-credential-not-showing-requested-field", fmt.Sprintf("d%d -> [%d]: %s", m.ID, m.Idx, why)
+		}
+
+		if sig, why := limitedOK(o.Creds[m.Idx], o.Disc[m.Idx], d); sig != "" {
+			if c.Creds[src].MapSubject {
+				sig += "/subject-held-as-map"
 			}
+
+			return sig, fmt.Sprintf("verifiableCredential[%d]: %s", m.Idx, why)
 		}
 	}
 
@@ -166,13 +221,16 @@ func judge(c Case, o *Obs) (string, string) {
 			return "match-alters-credential", fmt.Sprintf("d%d: %s", m.ID, why)
 		}
 
-		if d.Cons != nil && d.Cons.Limit == 2 {
-			rk := requestedKeys(d)
-			for _, a := range m.Cred.Attrs {
-				if !rk[a.K] {
-					return "limit-disclosure-reveals-unrequested-member", fmt.Sprintf("match d%d reveals a%d", m.ID, a.K)
-				}
+		if why := readableSatisfies(m.Cred, d); why != "" {
+			return "match-returns-credential-not-showing-requested-field", fmt.Sprintf("d%d: %s", m.ID, why)
+		}
+
+		if sig, why := limitedOK(m.Cred, o.MDisc[i], d); sig != "" {
+			if c.Creds[src].MapSubject {
+				sig += "/subject-held-as-map"
 			}
+
+			return sig, "Match: " + why
 		}
 	}
 
@@ -216,6 +274,18 @@ type runner struct {
 func (r *runner) do(kind string, c Case, withCoq bool) {
 	if !strings.HasPrefix(kind, "corpus") && kind != "replay" {
 		normalize(&c.Def)
+	}
+
+	for i := range c.Creds {
+		if c.Creds[i].SD { // an SD-JWT credential is a JWT (EdDSA here), carries no linked-data proof
+			c.Creds[i].JWT, c.Creds[i].Proofs, c.Creds[i].MapSubject = 1, nil, false
+		}
+
+		if c.Creds[i].JWT != 0 || len(c.Creds[i].Proofs) > 0 {
+			c.Creds[i].MapSubject = false
+		}
+
+		sortAttrs(c.Creds[i].Attrs)
 	}
 
 	o, err := r.e.runCase(c)
@@ -328,7 +398,29 @@ func distOf(c Case, o *Obs) []string {
 	}
 
 	for _, x := range c.Creds {
+		if x.MapSubject {
+			d = append(d, "cred:subject-held-as-map")
+		}
+
+		for _, a := range x.Attrs {
+			if a.K >= 100 {
+				d = append(d, "cred:nested-member")
+
+				break
+			}
+		}
+
+		for _, a := range x.Attrs {
+			if a.V.T == "a" {
+				d = append(d, "cred:array-member")
+
+				break
+			}
+		}
+
 		switch {
+		case x.SD:
+			d = append(d, "cred:sd-jwt")
 		case x.JWT != 0:
 			d = append(d, "cred:jwt")
 		case len(x.Proofs) > 0:
@@ -403,6 +495,7 @@ func main() {
 	genRequirements(r, rng.Fork(1), thorough)
 	genConstraints(r, rng.Fork(2), thorough)
 	genFormats(r, rng.Fork(3), thorough)
+	genDisclosure(r, rng.Fork(6), thorough)
 	genRandom(r, rng.Fork(4), thorough)
 	genIterator(r, rng.Fork(5), thorough)
 
